@@ -168,7 +168,7 @@ def _convert_fcmp(
     pred = flag.value
     is_ordered = pred[0] == "o"
     key = pred[1:]
-    cmpop = _FCMP_CMP_MAP.get(key, pred)
+    cmpop = _FCMP_CMP_MAP.get(key, pred.lstrip("_"))
     fn = builder.fcmp_ordered if is_ordered else builder.fcmp_unordered
     val_map[op.results[0]] = fn(cmpop, val_map[op.lhs], val_map[op.rhs])
 
